@@ -274,6 +274,14 @@ def judge(ctx, traces):
 
 def c20(ctx):
     os.environ["VERIF_WTMP_TAG"] = str(os.getpid())
+    try:
+        _c20(ctx)
+    finally:
+        import shutil
+        shutil.rmtree(drv.wtmp_dir(), ignore_errors=True)
+
+
+def _c20(ctx):
     os.makedirs(drv.SCRATCH, exist_ok=True)
     os.chmod(drv.SCRATCH, 0o755)
     if os.geteuid() != 0:
